@@ -1170,7 +1170,7 @@ def _is_rel(x):
 
 
 M.contract(P_PR + ':parse_explicit_relativity_info',
-           params=dict(options=OPTIONS_CONF, source_file_location=Opt(PATH), source=STREAM),
+           params=dict(options=OPTIONS_CONF, source_file_location=Opt(PATH), source=STREAM), inline=True,
            old=lambda source: source.pos,
            raises={SingleInstructionInvalidArgumentException: {
                'ensures': lambda source, old:
@@ -1193,4 +1193,255 @@ M.contract(P_PR + ':parse_explicit_relativity_info',
                'nothing else': lambda source_file_location, result:
                result is None or _is_rel(result) or isinstance(result, SymbolReference)
                or (source_file_location is not None and result is source_file_location),
+           }, raises_only=())
+
+
+# ============================================================================== the path parser
+# What a path argument with configuration `conf` can be parsed to (`respects`): the relativity is the default or an
+# accepted option; every symbol reference carries the restriction to the accepted relativities of THIS argument.
+
+from exactly_lib.symbol import symbol_syntax
+from exactly_lib.util import either
+
+ARG_CONF = Inst(RelOptionArgumentConfiguration, _tuple=[OPTIONS_CONF, Str, Bool])
+
+
+def _mk_abs_path(interp, name):
+    p = PATH.make(interp, name)
+    assume_pred(interp, lambda p: is_abs(den(p)), p)
+    return p
+
+
+def _mk_location(interp, name):
+    loc = Opt(PATH).make(interp, name)
+    if not interp.branch(interp.is_(loc, None)):
+        assume_pred(interp, lambda p: is_abs(den(p)), interp.resolve(loc))
+    return loc
+
+
+M.assume('the source_file_location given to a path parser is an absolute directory '
+         '(FileSystemLocationInfo.current_source_file.abs_path_of_dir_containing_last_file_base_name)')
+
+
+def _mk_parser(interp, name):
+    """a _Parser as _Parser.__init__ builds it (contract below): the reducer shares the configuration"""
+    conf = ARG_CONF.make(interp, name + '.conf')
+    c = object.__new__(parse_path._Conf)
+    c.source_file_location = _mk_location(interp, name + '.source_file_location')
+    c.rel_opt_conf = conf
+    p = object.__new__(parse_path._Parser)
+    p.conf = c
+    p.symbol_name_reducer = object.__new__(parse_path.MakePathFromMbSymbolReference)
+    p.symbol_name_reducer._rel_opt_conf = conf
+    return p
+
+
+PARSER = Custom(_mk_parser)
+
+M.contract(P_PARSE + ':_Parser.__init__',
+           params=dict(self=Inst(parse_path._Parser),
+                       conf=Inst(parse_path._Conf, source_file_location=Opt(PATH), rel_opt_conf=ARG_CONF)),
+           inline=True,
+           ensures={'reducer-shares-the-configuration': lambda self, conf:
+           self.conf is conf and self.symbol_name_reducer._rel_opt_conf is conf.rel_opt_conf}, raises_only=())
+
+
+def accepted_of(conf):
+    return conf.options.accepted_relativity_variants
+
+
+def default_of(conf):
+    return conf.options.default_option
+
+
+def respects(parser, sdv):
+    conf = parser.conf.rel_opt_conf
+    if isinstance(sdv, sdv_constant.PathConstantSdv):
+        # a literal path: the default relativity, or absolute when written as an absolute path
+        return wf(sdv._path) and (rel_view(sdv._path) is None or rel_view(sdv._path) is default_of(conf))
+    if isinstance(sdv, parse_path._PathSdvOfRelativityOptionAndSuffixSdv):
+        return sdv.relativity is default_of(conf) or sdv.relativity in accepted_of(conf).rel_option_types
+    if isinstance(sdv, path_rel_symbol.PathSdvRelSymbol):
+        return is_path_restriction_on(sdv.relativity.restrictions, accepted_of(conf))
+    if isinstance(sdv, path_from_symbol_reference.SdvThatIsIdenticalToReferencedPathOrWithStringValueAsSuffix):
+        return is_path_or_string_restriction_on(sdv._path_or_string_symbol.restrictions, accepted_of(conf)) \
+            and sdv.default_relativity is default_of(conf)
+    if isinstance(sdv, parse_path._PathSdvOfAbsPathAndSuffixSdv):
+        return parser.conf.source_file_location is not None and sdv.abs_path_root is parser.conf.source_file_location
+    return False
+
+
+class FragmentI(Interface):
+    target_class = symbol_syntax.Fragment
+    attrs = {'value': Str, 'is_symbol': Bool, 'is_constant': Bool}
+    invariant = staticmethod(lambda self: iff(self.is_constant, not self.is_symbol))
+
+
+FRAGMENTS = ListOf(Iface(FragmentI))
+
+
+class ParsedStringSdvI(StringSdvI):
+    attrs = {'is_string_constant': Bool, 'string_constant': Str}
+
+
+# string syntax (C09): how a token is split into constant and symbol-reference fragments
+M.contract('exactly_lib.symbol.symbol_syntax:split', trusted=True, params=dict(s=Str), returns=FRAGMENTS,
+           ensures={'empty iff empty': lambda s, result: iff(len(result) == 0, s == '')})
+M.contract('exactly_lib.impls.types.string_.parse_string:string_sdv_from_fragments', trusted=True,
+           params=dict(fragments=Any_, reference_restrictions=Any_), returns=Iface(ParsedStringSdvI))
+M.contract('exactly_lib.impls.types.string_.parse_string:parse_string_sdv_from_token', trusted=True,
+           params=dict(token=TOKEN, reference_restrictions=Any_), returns=Iface(ParsedStringSdvI),
+           ensures={'a constant is the string of the token': lambda token, result:
+           implies(result.is_string_constant, result.string_constant == token.string)})
+M.trust('string syntax (C09): symbol_syntax.split gives the fragments of a token (no fragment iff the string is empty); '
+        'string_sdv_from_fragments / parse_string_sdv_from_token build the StringSdv of them; a StringSdv without '
+        'symbol references is the constant string of its token')
+
+M.contract(P_PARSE + ':_Parser._just_string_argument', params=dict(self=PARSER, argument=Str),
+           returns=Inst(sdv_constant.PathConstantSdv, _path=ANY_DDV),
+           ensures={
+               'default relativity (absolute if written as an absolute path), the argument as suffix':
+                   lambda self, argument, result:
+                   rel_view(result.resolve(None)) is (None if argument.startswith('/')
+                                                      else default_of(self.conf.rel_opt_conf))
+                   and tail_view(result.resolve(None)) == P(argument) and wf(result.resolve(None)),
+           }, raises_only=())
+
+M.contract(P_PARSE + ':_Parser._result_from_no_arguments', params=dict(self=PARSER), inline=True,
+           ensures={'the root of the default relativity': lambda self, result:
+           result.is_right() and respects(self, result.right())
+           and rel_view(result.right().resolve(None)) is default_of(self.conf.rel_opt_conf)
+           and tail_view(result.right().resolve(None)) == P('')}, raises_only=())
+
+M.contract(P_PARSE + ':MakePathFromMbSymbolReference.reduce_left',
+           params=dict(self=Inst(parse_path.MakePathFromMbSymbolReference, _rel_opt_conf=ARG_CONF), x=Str),
+           inline=True,
+           ensures={'reference restricted to the accepted relativities; default relativity for a string':
+                        lambda self, x, result:
+                        isinstance(result,
+                                   path_from_symbol_reference.SdvThatIsIdenticalToReferencedPathOrWithStringValueAsSuffix)
+                        and result._path_or_string_symbol.name == x
+                        and is_path_or_string_restriction_on(result._path_or_string_symbol.restrictions,
+                                                             accepted_of(self._rel_opt_conf))
+                        and result.default_relativity is default_of(self._rel_opt_conf)}, raises_only=())
+
+_RELATIVITY_INFO = Union(REL, Inst(SymbolReference, _name=Str, _restrictions=DIRECT_PATH_RESTRICTIONS),
+                         Custom(lambda interp, name: _mk_abs_path(interp, name)))
+
+
+def constructed_with(relativity_info, suffix_sdv, sdv):
+    if isinstance(relativity_info, RelOptionType):
+        return isinstance(sdv, parse_path._PathSdvOfRelativityOptionAndSuffixSdv) \
+            and sdv.relativity is relativity_info and sdv.path_suffix_sdv is suffix_sdv
+    if isinstance(relativity_info, SymbolReference):
+        return isinstance(sdv, path_rel_symbol.PathSdvRelSymbol) \
+            and sdv.relativity is relativity_info and sdv.path_suffix is suffix_sdv
+    return isinstance(sdv, parse_path._PathSdvOfAbsPathAndSuffixSdv) \
+        and sdv.abs_path_root is relativity_info and sdv.path_suffix_sdv is suffix_sdv
+
+
+def _constructor_applied(relativity_info, suffix_sdv):
+    return parse_path._Parser._path_constructor(relativity_info)(suffix_sdv)
+
+
+M.contract('contracts.C12_paths:_constructor_applied',
+           params=dict(relativity_info=_RELATIVITY_INFO, suffix_sdv=Iface(PartSdvI)),
+           requires=lambda relativity_info: relativity_info is not None,
+           ensures={'_path_constructor: the SDV class of the kind of relativity, holding it and the suffix':
+                        lambda relativity_info, suffix_sdv, result:
+                        constructed_with(relativity_info, suffix_sdv, result)}, raises_only=())
+
+
+def _mk_constructor(interp, name):
+    info = _RELATIVITY_INFO.make(interp, name + '.relativity_info')
+    f = interp.call(parse_path._Parser._path_constructor, [info], {})
+    interp.st.ghost['relativity_info'] = info
+    return f
+
+
+def relative_constant_part(part_sdv):
+    """a constant suffix, checked by the parser to be a relative path"""
+    return isinstance(part_sdv, part_impl.PathPartSdvAsConstantPath) \
+        and not part_sdv._path_part.value().startswith('/')
+
+
+M.contract(P_PARSE + ':_Parser._with_explicit_relativity',
+           params=dict(self=PARSER, path_argument=TOKEN, path_part_2_path_sdv=Custom(_mk_constructor)), inline=True,
+           ensures={
+               'absolute constant: the absolute path itself (the relativity is ignored)':
+                   lambda path_argument, result:
+                   (not isinstance(result, sdv_constant.PathConstantSdv))
+                   or (path_argument.string.startswith('/') and rel_view(result._path) is None
+                       and tail_view(result._path) == P(path_argument.string) and wf(result._path)),
+               'otherwise: the SDV of the given relativity; a constant suffix is the (relative) string of the token':
+                   lambda path_argument, result, ghost:
+                   isinstance(result, sdv_constant.PathConstantSdv)
+                   or (constructed_with(ghost['relativity_info'], suffix_of(result), result)
+                       and (relative_constant_part(suffix_of(result))
+                            and suffix_of(result)._path_part.value() == path_argument.string
+                            or isinstance(suffix_of(result), part_impl.PathPartSdvAsStringSdv))),
+           }, raises_only=())
+
+
+def suffix_of(sdv):
+    if isinstance(sdv, path_rel_symbol.PathSdvRelSymbol):
+        return sdv.path_suffix
+    return sdv.path_suffix_sdv
+
+
+M.contract(P_PARSE + ':_Parser._extract_parts_that_can_act_as_path_and_suffix',
+           params=dict(self=PARSER, string_fragments=ListOf(Iface(FragmentI), min_len=1)), inline=True,
+           ensures={'reference to the first fragment, restricted to the accepted relativities':
+                        lambda self, string_fragments, result:
+                        result[0].name == string_fragments[0].value
+                        and is_path_or_string_restriction_on(result[0].restrictions,
+                                                             accepted_of(self.conf.rel_opt_conf))},
+           raises_only=())
+
+M.contract(P_PARSE + ':_Parser._just_argument_with_symbol_references',
+           params=dict(self=PARSER, string_fragments=ListOf(Iface(FragmentI), min_len=1)), inline=True,
+           ensures={
+               'leading symbol reference: path-or-string reference restricted to the accepted relativities':
+                   lambda self, string_fragments, result:
+                   (not isinstance(result,
+                                   path_from_symbol_reference.SdvThatIsIdenticalToReferencedPathOrWithStringValueAsSuffix))
+                   or (respects(self, result) and result._path_or_string_symbol.name == string_fragments[0].value),
+               'otherwise: the default relativity': lambda self, result:
+               isinstance(result,
+                          path_from_symbol_reference.SdvThatIsIdenticalToReferencedPathOrWithStringValueAsSuffix)
+               or (isinstance(result, parse_path._PathSdvOfRelativityOptionAndSuffixSdv)
+                   and result.relativity is default_of(self.conf.rel_opt_conf)),
+           }, raises_only=())
+
+
+def _result_respects(self, result):
+    """result: Either a symbol name (a plain token that is a single symbol reference) or a PathSdv"""
+    if result.is_left():
+        return True
+    return respects(self, result.right())
+
+
+M.contract(P_PARSE + ':_Parser._without_explicit_relativity', params=dict(self=PARSER, path_argument=TOKEN),
+           inline=True,
+           # `file ""`: symbol_syntax.split('') is [] and fragments[0] raises IndexError (reported by the instruction
+           # parser as a syntax error with the message 'list index out of range'; see notes/C12.md)
+           raises={IndexError: {'when': lambda path_argument:
+           path_argument.string == '' and not (path_argument.is_quoted and path_argument.is_hard_quote_type)}},
+           ensures={'respects the configuration of the argument': lambda self, result: _result_respects(self, result)},
+           raises_only=())
+
+M.contract(P_PARSE + ':_Parser._with_non_empty_token_stream', params=dict(self=PARSER, tokens=STREAM),
+           requires=lambda tokens: not tokens.is_null,
+           old=lambda tokens: tokens.pos,
+           raises={
+               SingleInstructionInvalidArgumentException: {},
+               IndexError: {}},
+           ensures={
+               'respects the configuration of the argument': lambda self, result: _result_respects(self, result),
+               'a relativity option that the argument does not accept is never passed on':
+                   lambda self, tokens, result, old:
+                   implies(named_relativity(token_at(tokens, old).string) is not None
+                           and token_at(tokens, old).source_string[0] == '-',
+                           named_relativity(token_at(tokens, old).string)
+                           in accepted_of(self.conf.rel_opt_conf).rel_option_types),
            }, raises_only=())
